@@ -1,11 +1,284 @@
-(** C13 -- Point-in-shape answers agree with exact geometry. (work in progress) *)
+(** C13 -- Point-in-shape answers agree with exact geometry.
+    Property theorems only; proofs are in Geom/Contains_proofs.v.
+
+    Model: Geom/Contains.v -- [rect_contains], [poly_contains] (Polygon::contains after the repair
+    work/c13/fix-polygon-contains.patch: exact i128 cross product, half-open crossing rule),
+    [poly_contains_orig] (Polygon::contains as found), [path_contains]; results are
+    [Ret b | Ovf | Panic].  Specification: Geom/ContainsSpec.v, written from exact geometry:
+    [on_seg], [on_boundary], [crossings] / [winding] (unsigned / signed number of edges that cross
+    the open rightward ray from q under the half-open rule, sides decided by cross-product sign),
+    [in_region]    = on the boundary, or an odd number of crossings      (even-odd rule),
+    [in_region_nz] = on the boundary, or a non-zero signed crossing count (non-zero-winding rule),
+    [in_box], [near_seg] / [far_seg] (paths, DESIGN.md section 4).  Points are pairs of [Z]. *)
 From Coq Require Import ZArith Bool List Lia.
 From L21 Require Import Geom.ContainsSpec Geom.Contains Geom.ContainsCheck Geom.Contains_proofs.
 Import ListNotations.
 Local Open Scope Z_scope.
 
-Theorem C13_polygon_orig_refuted_stub :
-  poly_contains_orig [(0,0);(5,0);(5,4);(0,4);(1,2)] (0,2) = Ret true /\
-  in_regionb [(0,0);(5,0);(5,4);(0,4);(1,2)] (0,2) = false.
-Proof. exact orig_refuted_vertex. Qed.
-Print Assumptions C13_polygon_orig_refuted_stub.
+(** * 1. Rectangles: the closed box, corners in any order, no range restriction *)
+Theorem C13_rect :
+  forall p0 p1 q, rect_contains p0 p1 q = true <-> in_box p0 p1 q.
+Proof. exact rect_contains_spec. Qed.
+
+(** * 2. Polygons (repaired code)
+
+    (a) For ALL vertex lists (simple or not, any orientation, any starting vertex, repeated and
+    collinear vertices, degenerate lists, any coordinates): whenever the call returns, it returns
+    [true] exactly on the closed region of the non-zero-winding rule.  No coordinate bound is
+    needed for this: an overflow is a distinct outcome [Ovf], never a wrong answer. *)
+Theorem C13_polygon :
+  forall P q b, poly_contains P q = Ret b -> (b = true <-> in_region_nz P q).
+Proof. exact poly_contains_nz. Qed.
+
+(** (b) The call does return (no overflow, no panic) when every coordinate is below 2^62 in
+    magnitude ([pt_ok]); this covers the whole 32-bit GDSII range with 30 bits to spare. *)
+Theorem C13_polygon_no_overflow :
+  forall P q, Forall pt_ok P -> pt_ok q -> exists b, poly_contains P q = Ret b.
+Proof. exact poly_contains_total. Qed.
+
+Theorem C13_polygon_computes :
+  forall P q, Forall pt_ok P -> pt_ok q -> poly_contains P q = Ret (in_region_nzb P q).
+Proof. exact poly_contains_eq_nzb. Qed.
+
+(** (c) Even-odd form, as the property is stated ("the closed region the shape covers"): the
+    answer is [true] exactly on [in_region P q] whenever the signed crossing count of [q] is
+    -1, 0 or 1.  Simple polygons have this bound (Jordan curve theorem); that implication is
+    NOT proved here -- see [C13_polygon_simple_full] below. *)
+Theorem C13_polygon_evenodd :
+  forall P q b, poly_contains P q = Ret b -> -1 <= winding P q <= 1 ->
+    (b = true <-> in_region P q).
+Proof.
+  intros P q b H Hw. rewrite (in_region_nz_iff P q Hw). exact (poly_contains_nz P q b H).
+Qed.
+
+(** The two rules are comparable in general and differ only by multiply-wound points. *)
+Theorem C13_evenodd_vs_nonzero :
+  (forall P q, in_region P q -> in_region_nz P q) /\
+  (forall P q, -1 <= winding P q <= 1 -> (in_region P q <-> in_region_nz P q)) /\
+  (forall P q, Z.odd (crossings P q) = Z.odd (winding P q)).
+Proof. exact (conj in_region_in_nz (conj in_region_nz_iff crossings_winding_parity)). Qed.
+
+(** The even-odd form does NOT hold for all vertex lists: a list running twice round a square
+    has winding number 2 at the centre; the code answers true, the even-odd rule says outside.
+    (The list is not simple, so the property statement is silent about it.) *)
+Theorem C13_polygon_evenodd_needs_winding_bound :
+  exists P q, poly_contains P q = Ret true /\ winding P q = 2 /\ ~ in_region P q /\ simpleb P = false.
+Proof. exists double_square, (1, 1). exact double_square_facts. Qed.
+
+(** The full even-odd statement for simple polygons; what is missing for it is exactly
+    [C13_simple_winding_bound_full] (a discrete Jordan curve theorem for [simpleb]); the
+    correspondence run checks the implementation against [in_regionb] on every generated
+    simple polygon (exhaustively on small grids). *)
+Definition C13_simple_winding_bound_full : Prop :=
+  forall P q, simpleb P = true -> -1 <= winding P q <= 1.
+Definition C13_polygon_simple_full : Prop :=
+  forall P q b, simpleb P = true -> poly_contains P q = Ret b -> (b = true <-> in_region P q).
+Theorem C13_polygon_simple_partial :
+  C13_simple_winding_bound_full -> C13_polygon_simple_full.
+Proof.
+  intros HJ P q b Hs H. apply C13_polygon_evenodd; [exact H|]. apply HJ. exact Hs.
+Qed.
+
+(** (d) Rect::to_poly: the polygon code and the rectangle code agree. *)
+Theorem C13_polygon_rect :
+  forall p0 p1 q, pt_ok p0 -> pt_ok p1 -> pt_ok q ->
+    poly_contains (rect_to_poly p0 p1) q = Ret (rect_contains p0 p1 q).
+Proof. exact poly_rect_agree. Qed.
+
+(** * 3. The specification is a geometric object, not an algorithm: both regions are invariant
+    under every re-presentation of the same polygon and under the symmetries that keep the
+    ray horizontal. *)
+
+(** cyclic shift of the vertex list (any starting vertex) *)
+Theorem C13_region_rotate :
+  forall l1 l2 q, (in_region (l2 ++ l1) q <-> in_region (l1 ++ l2) q) /\
+                  (in_region_nz (l2 ++ l1) q <-> in_region_nz (l1 ++ l2) q).
+Proof. intros. split; [apply in_region_rotate|apply in_region_nz_rotate]. Qed.
+
+(** reversal (orientation) *)
+Theorem C13_region_reverse :
+  forall P q, (in_region (rev P) q <-> in_region P q) /\ (in_region_nz (rev P) q <-> in_region_nz P q).
+Proof. intros. split; [apply in_region_rev|apply in_region_nz_rev]. Qed.
+
+(** a vertex repeated, anywhere in the list *)
+Theorem C13_region_repeated_vertex :
+  forall l1 a l2 q, (in_region (l1 ++ a :: a :: l2) q <-> in_region (l1 ++ a :: l2) q) /\
+                    (in_region_nz (l1 ++ a :: a :: l2) q <-> in_region_nz (l1 ++ a :: l2) q).
+Proof. intros. split; [apply in_region_insert_repeat|apply in_region_nz_insert_repeat]. Qed.
+
+(** a vertex [m] inserted on the edge from [a] to the next vertex (cyclically [hd a (l2 ++ l1)]) *)
+Theorem C13_region_collinear_vertex :
+  forall l1 a l2 m q, on_seg a (hd a (l2 ++ l1)) m ->
+    (in_region (l1 ++ a :: m :: l2) q <-> in_region (l1 ++ a :: l2) q) /\
+    (in_region_nz (l1 ++ a :: m :: l2) q <-> in_region_nz (l1 ++ a :: l2) q).
+Proof. intros. split; [apply in_region_insert_collinear|apply in_region_nz_insert_collinear]; assumption. Qed.
+
+(** translation *)
+Theorem C13_region_translate :
+  forall d P q, (in_region (map (shift d) P) (shift d q) <-> in_region P q) /\
+                (in_region_nz (map (shift d) P) (shift d q) <-> in_region_nz P q).
+Proof. intros. split; [apply in_region_shift|apply in_region_nz_shift]. Qed.
+
+(** mirror image in the y axis (x -> -x): the ray to the right becomes the ray to the left *)
+Theorem C13_region_mirror_x :
+  forall P q, (in_region (map mirror_x P) (mirror_x q) <-> in_region P q) /\
+              (in_region_nz (map mirror_x P) (mirror_x q) <-> in_region_nz P q).
+Proof. intros. split; [apply in_region_mirror_x|apply in_region_nz_mirror_x]. Qed.
+
+(** mirror image in the x axis (y -> -y): the half-open rule becomes upper-closed *)
+Theorem C13_region_mirror_y :
+  forall P q, (in_region (map mirror_y P) (mirror_y q) <-> in_region P q) /\
+              (in_region_nz (map mirror_y P) (mirror_y q) <-> in_region_nz P q).
+Proof. intros. split; [apply in_region_mirror_y|apply in_region_nz_mirror_y]. Qed.
+
+(** a rectangle presented as a 4-vertex polygon -- corners in any order, any of the four starting
+    corners, either orientation -- is the closed box, under both rules *)
+Theorem C13_region_rectangle :
+  forall p0 p1 (l1 l2 : list pt) q,
+    l1 ++ l2 = rect_to_poly p0 p1 \/ l1 ++ l2 = rev (rect_to_poly p0 p1) ->
+    (in_region (l2 ++ l1) q <-> in_box p0 p1 q) /\ (in_region_nz (l2 ++ l1) q <-> in_box p0 p1 q).
+Proof. exact rect_poly_all_variants. Qed.
+
+(** a point outside the bounding box of the vertices is outside both regions *)
+Theorem C13_region_inside_bbox :
+  forall P q, outside_bbox P q -> ~ in_region_nz P q /\ ~ in_region P q.
+Proof.
+  intros P q H. split; [exact (outside_bbox_not_in_region_nz P q H)|].
+  intros Hr. exact (outside_bbox_not_in_region_nz P q H (in_region_in_nz P q Hr)).
+Qed.
+
+(** the oracles the correspondence run evaluates decide the specification *)
+Theorem C13_checker_sound :
+  (forall P q, in_regionb P q = true <-> in_region P q) /\
+  (forall P q, in_region_nzb P q = true <-> in_region_nz P q) /\
+  (forall P q, on_boundaryb P q = true <-> on_boundary P q).
+Proof. exact (conj in_regionb_spec (conj in_region_nzb_spec on_boundaryb_spec)). Qed.
+
+(** * 4. Manhattan paths, in the form fixed in DESIGN.md section 4.
+
+    [path_ok ps w]: at least one point, every segment axis-parallel, 0 <= w < 2^62, coordinates
+    below 2^62 in magnitude.  Then the call returns [r] (no overflow, no panic) and
+    - [r = true] EXACTLY on [path_cover (w quot 2) ps q]: some segment (a, b) has
+      ax = bx, |qx - ax| <= w quot 2 and qy between ay and by (zero-length segments are read this way), or
+      ax <> bx, ay = by, |qy - ay| <= w quot 2 and qx between ax and bx;
+    - must-accept: q on a segment, or within w/2 (exact, so odd widths lose nothing for integer
+      points: 2d <= w <-> d <= w quot 2) perpendicular distance of a segment of non-zero length with its
+      projection on the segment  ==>  [r = true];
+    - must-reject: Chebyshev distance from q to every segment above w/2  ==>  [r = false];
+    - in between (beyond segment ends, corner notches, around zero-length segments) the answer is the
+      one [path_cover] gives; the property does not judge it. *)
+Theorem C13_path :
+  forall ps w q, path_ok ps w ->
+    exists r, path_contains ps w q = Ret r /\
+      (r = true <-> path_cover (Z.quot w 2) ps q) /\
+      ((exists a b, In (a, b) (chain ps) /\ near_seg w a b q) -> r = true) /\
+      ((forall a b, In (a, b) (chain ps) -> far_seg w a b q) -> r = false).
+Proof. exact path_contains_spec. Qed.
+
+Theorem C13_path_half_width :
+  forall w d, 0 <= w -> (2 * d <= w <-> d <= Z.quot w 2).
+Proof. exact half_width. Qed.
+
+(** outside [path_ok]: an empty point list panics (usize underflow of [len - 1]); a first segment
+    that is not axis-parallel panics ([unimplemented!]) *)
+Theorem C13_path_panics :
+  (forall w q, path_contains [] w q = Panic) /\
+  (forall a b ps w q, in_int w = true -> px a <> px b -> py a <> py b ->
+     path_contains (a :: b :: ps) w q = Panic).
+Proof. exact (conj path_contains_empty path_contains_nonmanhattan_first). Qed.
+
+(** * 5. The code as found violates the property on simple polygons: two independent witnesses.
+    - (0,0),(5,0),(5,4),(0,4),(1,2) queried at (0,2): the ray grazes the pass-through vertex
+      (1,2), both incident edges count, the answer is true, the point is outside;
+    - the triangle (0,0),(1,3),(1,0) queried at (0,1): the truncating division gives x = 0 = q.x,
+      the answer is true, the point is outside.
+    The repaired code answers false on both.  Moreover the code as found overflows isize inside
+    the 32-bit coordinate range, where the repaired code answers correctly. *)
+Theorem C13_polygon_orig_refuted :
+  (exists P q, simpleb P = true /\ poly_contains_orig P q = Ret true /\ ~ in_region P q /\ ~ in_region_nz P q /\
+               poly_contains P q = Ret false) /\
+  (simpleb wit_vertex = true /\ poly_contains_orig wit_vertex (0, 2) = Ret true /\ ~ in_region wit_vertex (0, 2)) /\
+  (simpleb wit_division = true /\ poly_contains_orig wit_division (0, 1) = Ret true /\ ~ in_region wit_division (0, 1)).
+Proof.
+  split; [exists wit_vertex, (0, 2); exact orig_refuted_vertex|].
+  destruct orig_refuted_vertex as [A [B [C _]]]. destruct orig_refuted_division as [A' [B' [C' _]]].
+  exact (conj (conj A (conj B C)) (conj A' (conj B' C'))).
+Qed.
+
+Theorem C13_polygon_orig_overflows_in_i32_range :
+  poly_contains_orig wit_i32 (0, -2147483647) = Ovf /\
+  poly_contains wit_i32 (0, -2147483647) = Ret true /\ in_region wit_i32 (0, -2147483647).
+Proof. exact orig_overflow_i32. Qed.
+
+(** * Non-vacuity *)
+
+(** a concave simple polygon with a pass-through vertex, a repeated vertex and a collinear vertex;
+    queried inside, on an edge, at a vertex, at vertex height outside, and far away: the hypotheses
+    of 2(a)-(c) hold and both answers occur *)
+Definition ex_poly : list pt := [(0,0);(3,0);(5,0);(5,4);(5,4);(0,4);(1,2)].
+Example C13_polygon_nonvacuous :
+  simpleb ex_poly = true /\ Forall pt_ok ex_poly /\
+  poly_contains ex_poly (2, 2) = Ret true /\ in_region ex_poly (2, 2) /\ winding ex_poly (2, 2) = 1 /\
+  poly_contains ex_poly (0, 2) = Ret false /\ ~ in_region ex_poly (0, 2) /\ winding ex_poly (0, 2) = 0 /\
+  poly_contains ex_poly (4, 0) = Ret true /\ poly_contains ex_poly (1, 2) = Ret true /\
+  poly_contains ex_poly (7, 2) = Ret false /\ poly_contains ex_poly (-1, 2) = Ret false /\
+  poly_contains (rev ex_poly) (2, 2) = Ret true /\ winding (rev ex_poly) (2, 2) = -1.
+Proof.
+  split; [vm_compute; reflexivity|]. split.
+  { assert (Hk : forall x y, Z.abs x < 2 ^ 62 -> Z.abs y < 2 ^ 62 -> pt_ok (x, y)) by (intros; split; assumption).
+    unfold ex_poly. repeat (apply Forall_cons; [apply Hk; reflexivity|]). apply Forall_nil. }
+  split; [vm_compute; reflexivity|]. split; [apply in_regionb_spec; vm_compute; reflexivity|].
+  split; [vm_compute; reflexivity|]. split; [vm_compute; reflexivity|].
+  split; [intros H; apply in_regionb_spec in H; vm_compute in H; discriminate|].
+  repeat split; vm_compute; reflexivity.
+Qed.
+
+(** a Manhattan path with an odd width, a corner and a zero-length segment: [path_ok] holds;
+    a must-accept point, a must-reject point, and unspecified points with both answers *)
+Definition ex_path : list pt := [(0,0);(6,0);(6,5);(6,5)].
+Example C13_path_nonvacuous :
+  path_ok ex_path 3 /\
+  (exists a b, In (a, b) (chain ex_path) /\ near_seg 3 a b (2, 1)) /\ path_contains ex_path 3 (2, 1) = Ret true /\
+  (forall a b, In (a, b) (chain ex_path) -> far_seg 3 a b (2, 2)) /\ path_contains ex_path 3 (2, 2) = Ret false /\
+  path_contains ex_path 3 (7, -1) = Ret false /\ path_contains ex_path 3 (7, 0) = Ret true /\
+  path_contains ex_path 3 (6, 6) = Ret false /\ path_contains ex_path 3 (7, 5) = Ret true.
+Proof.
+  split.
+  { unfold path_ok, ex_path. split; [discriminate|]. split.
+    - assert (Hk : forall x y, Z.abs x < 2 ^ 62 -> Z.abs y < 2 ^ 62 -> pt_ok (x, y)) by (intros; split; assumption).
+      repeat (apply Forall_cons; [apply Hk; reflexivity|]). apply Forall_nil.
+    - split; [split; [lia|vm_compute; reflexivity]|].
+      cbn [chain]. apply Forall_cons; [right; reflexivity|]. apply Forall_cons; [left; reflexivity|].
+      apply Forall_cons; [left; reflexivity|]. apply Forall_nil. }
+  split.
+  { exists (0,0), (6,0). split; [left; reflexivity|]. right; right.
+    unfold px, py; cbn [fst snd]. repeat split; try lia; discriminate. }
+  split; [vm_compute; reflexivity|]. split.
+  { intros a b [H|[H|[H|[]]]]; injection H as <- <-; vm_compute; reflexivity. }
+  repeat split; vm_compute; reflexivity.
+Qed.
+
+Print Assumptions C13_rect.
+Print Assumptions C13_polygon.
+Print Assumptions C13_polygon_no_overflow.
+Print Assumptions C13_polygon_computes.
+Print Assumptions C13_polygon_evenodd.
+Print Assumptions C13_evenodd_vs_nonzero.
+Print Assumptions C13_polygon_evenodd_needs_winding_bound.
+Print Assumptions C13_polygon_simple_partial.
+Print Assumptions C13_polygon_rect.
+Print Assumptions C13_region_rotate.
+Print Assumptions C13_region_reverse.
+Print Assumptions C13_region_repeated_vertex.
+Print Assumptions C13_region_collinear_vertex.
+Print Assumptions C13_region_translate.
+Print Assumptions C13_region_mirror_x.
+Print Assumptions C13_region_mirror_y.
+Print Assumptions C13_region_rectangle.
+Print Assumptions C13_region_inside_bbox.
+Print Assumptions C13_checker_sound.
+Print Assumptions C13_path.
+Print Assumptions C13_path_half_width.
+Print Assumptions C13_path_panics.
+Print Assumptions C13_polygon_orig_refuted.
+Print Assumptions C13_polygon_orig_overflows_in_i32_range.
